@@ -890,3 +890,33 @@ def fn_stmts(facts, name):
         return None, None
     lets = {}
     return stmts(b["body"], lets), lets
+
+
+# ---- polynomial normal form for index arithmetic -----------------------------------------------
+
+def poly(e, atom):
+    """normalise an sx arithmetic expression over + - * (unsigned, no overflow assumed) to
+    {monomial(tuple of atom names): coefficient}.  `atom(x)` names a sub-expression that is to be treated
+    as an indeterminate (or returns None).  Unknown sub-expressions become their own atoms."""
+    a = atom(e)
+    if a is not None:
+        return {(a,): 1}
+    if e[0] == "lit" and isinstance(e[1], int) and not isinstance(e[1], bool):
+        return {(): e[1]} if e[1] else {}
+    if e[0] == "cast":
+        return poly(e[1], atom)
+    if e[0] == "bin" and e[1] in ("Add", "Sub", "Mul"):
+        p, q = poly(e[2], atom), poly(e[3], atom)
+        if e[1] == "Mul":
+            out = {}
+            for m1, c1 in p.items():
+                for m2, c2 in q.items():
+                    m = tuple(sorted(m1 + m2))
+                    out[m] = out.get(m, 0) + c1 * c2
+        else:
+            out = dict(p)
+            sgn = 1 if e[1] == "Add" else -1
+            for m, c in q.items():
+                out[m] = out.get(m, 0) + sgn * c
+        return {m: c for m, c in out.items() if c}
+    return {("?" + sx_show(e, 80),): 1}
